@@ -529,6 +529,7 @@ func runC15() error {
 					}
 				}
 				boundaryC15(func(c *c15Case) { emit(c); rep.Count("stream.boundary", 1) })
+				selfEmbC15() // self-embedding types: outside the model, against encoding/json
 			}
 			exhaustiveC15(w, *workers, func(c *c15Case) { emit(c); rep.Count("stream.exhaustive", 1) })
 			genC15(r, perWorker, func(c *c15Case) { emit(c); rep.Count("stream.random", 1) })
@@ -588,6 +589,7 @@ func runC15() error {
 		"describes the tree of the reflective reference; the Lean refEncode equals the harness reference; each Lean plan interpreter equals its implementation " +
 		"(under the smallest set of listed deviations); with ojg.GoOptions the reference equals encoding/json (nil ~ empty)"
 	rep.Exhaustive = append(rep.Exhaustive, "every struct type with two fields over {int, string, *int} x 6 tag forms (none, name, name+omitempty, omitempty, -, string), every zero/non-zero value pattern, 8 key-naming option combinations")
+	rep.Notes = append(rep.Notes, "self-embedding types (pc.SelfEmb, pc.EmbA/pc.EmbB, and a struct holding them in fields, slices and maps) are outside the Lean model (GoType is a finite tree): every encoder is compared with encoding/json (member names spelled as the options say) under three key-naming option sets, by value and by pointer")
 	rep.Notes = append(rep.Notes, "types: reflect.StructOf structs (tags, embedded structs and pointers, nested containers, interfaces) and the named types of harness packages pa/pb; values with nil pointers, slices, maps and interfaces at every level")
 	return nil
 }
